@@ -14,13 +14,14 @@ the optimized expression assemble to the NumPy meaning of the ORIGINAL (`C02_opt
 
 `.chunks` may legitimately change under a rewrite (C03 is about each expression's own `.chunks`).
 It is preserved (theorems `C02_chunks_*`) by: slice through map / zip, rechunk∘rechunk, no-op
-rechunk, rechunk through map / zip, rechunk into a source; under a grid-sensitive parent `step`
+rechunk, rechunk through map / zip, rechunk into a source / into a region read; under a grid-sensitive parent `step`
 accepts a rewritten child only when `.chunks` is unchanged (`keepGrid`).
 
-Rules in `optimize` (16): sliceIdentityDrop, sliceSliceFuse, sliceThroughMap, sliceThroughZip,
+Rules in `optimize` (17): sliceIdentityDrop, sliceSliceFuse, sliceThroughMap, sliceThroughZip,
 sliceThroughTranspose, sliceThroughExpandDims, sliceThroughSqueeze, sliceThroughReduce,
 sliceThroughConcat, rechunkNoop, rechunkRechunk, rechunkThroughMap, rechunkThroughZip,
-rechunkThroughTranspose, rechunkThroughExpandDims, rechunkIntoSrc.  Sound but outside `optimize`:
+rechunkThroughTranspose, rechunkThroughExpandDims, rechunkIntoSrc, rechunkIntoRegion.  Sound but outside
+`optimize`:
 sliceIntoSrcKeep (a region is kept as `slice (src …)`), sliceSplitInts.
 NOT modelled (covered by the end-to-end search only): slice through `broadcast_to`, the generic
 `Blockwise._accept_slice` (no `BlockLocal` guard in the code), pushing integers through
@@ -111,6 +112,22 @@ theorem C02_rule_sound_rechunkThroughExpandDims (env : Env) (e e' : Expr) (hw : 
 theorem C02_rule_sound_rechunkIntoSrc (env : Env) (e e' : Expr) (hw : WF e)
     (h : rechunkIntoSrc e = some e') : Preserves env e' e :=
   preserves_of (rechunkIntoSrc_sound env e e' hw h)
+
+theorem C02_rule_sound_rechunkIntoRegion (env : Env) (e e' : Expr) (hw : WF e)
+    (h : rechunkIntoRegion e = some e') : Preserves env e' e :=
+  preserves_of (rechunkIntoRegion_sound env e e' hw h)
+
+/-- … and it delivers exactly the requested chunks -/
+theorem C02_chunks_rechunkIntoRegion (e e' : Expr) (h : rechunkIntoRegion e = some e') :
+    chunks e' = chunks e := by
+  unfold rechunkIntoRegion at h; split at h
+  · split at h
+    · dsimp only at h
+      split at h
+      · rename_i hc; injection h with h; subst h; exact hc.2
+      · exact absurd h (by simp)
+    · exact absurd h (by simp)
+  · exact absurd h (by simp)
 
 /-- the index walk of slice∘slice fusion (`fuse_slice` + `normalize_slice`), stated on indices:
 the fused index is accepted, selects the same shape, and reads the same input positions -/
@@ -239,6 +256,9 @@ example : rechunkThroughTranspose (.rechunk (.transpose xSrc [1, 0]) [[5], [1, 3
 example : rechunkThroughExpandDims (.rechunk (.expandDims xSrc 0) [[1], [4], [5]])
     = some (.expandDims (.rechunk xSrc [[4], [5]]) 0) := by decide
 example : rechunkIntoSrc (.rechunk xSrc [[4], [5]]) = some (.src 0 [4, 5] [[4], [5]]) := by decide
+-- a region read x[1:4, :3] rechunked to ((2,1),(3,)): the source is read in chunks ((1,2,1),(3,2))
+example : rechunkIntoRegion (.rechunk (.slice xSrc [sl (some 1) (some 4) none, sl none (some 3) none]) [[2, 1], [3]])
+    = some (.slice (.src 0 [4, 5] [[1, 2, 1], [3, 2]]) [sl (some 1) (some 4) none, sl none (some 3) none]) := by decide
 
 /-- the hypotheses are jointly satisfiable and the conclusion is about real data: the transposed
 slice and its pushed-down form have the same non-trivial values -/
